@@ -224,14 +224,20 @@ def crash_class(stderr):
 
 
 def crash_site(stderr):
+    """Innermost frame inside fiber (else fasthttp) of a Go crash dump, without arguments / line numbers;
+    the same naming as ev.PanicSite in the harness."""
+    first_fasthttp = None
     for line in stderr.splitlines():
-        m = FIBER_FRAME.match(line)
-        if m and not line.startswith("\t"):
-            f = m.group(1)
-            f = f.replace("github.com/gofiber/fiber/v3", "").lstrip("/.")
-            f = f.replace("github.com/valyala/fasthttp.", "fasthttp:")
-            return f
-    return "unknown"
+        if line.startswith("\t") or not FIBER_FRAME.match(line):
+            continue
+        f = line.strip()
+        if "(" in f:
+            f = f[:f.rfind("(")]          # "pkg.(*T).method(0xc000…)" -> "pkg.(*T).method"
+        if f.startswith("github.com/gofiber/fiber/v3"):
+            return f[len("github.com/gofiber/fiber/v3"):].lstrip("/.")
+        if first_fasthttp is None and f.startswith("github.com/valyala/fasthttp."):
+            first_fasthttp = "fasthttp:" + f[len("github.com/valyala/fasthttp."):]
+    return first_fasthttp or "unknown"
 
 
 def sig_hash(s):
